@@ -269,7 +269,9 @@ class DelayedS3Writer(S3Limits):
         if client is None:
             # Assume running locally with everyone sharing same self.mpu
             with _mpu_local_lock():
-                if not final_write:
+                # someone else might have initialized it while we were
+                # waiting for the lock
+                if not final_write and not mpu.started:
                     _ = mpu.initiate(**self.kw)
                 return mpu
 
